@@ -106,6 +106,28 @@ class Shape:
                 return i
         raise ValueError(e)
 
+    def admissible(self, e, f):
+        """Can e and f occur as a pair the properties quantify over -- two leaves of one 1-irregular mesh, or a leaf and
+        a leaf / child / quarter of a leaf?  Elements are space-time rectangles (t0, t1, x0, x1).
+          * interiors overlap: only identical, child or quarter (nested, at most one level apart in each axis);
+          * they share part of an edge: at most two levels apart along that edge (one between leaves of a 1-irregular
+            mesh, one more for a child / quarter);
+          * otherwise: always."""
+        t_ov = min(e[1], f[1]) - max(e[0], f[0])          # > 0: time intervals overlap in a segment
+        x_ov = min(e[3], f[3]) - max(e[2], f[2])
+        ht = max(e[1] - e[0], f[1] - f[0]) / min(e[1] - e[0], f[1] - f[0])
+        hx = max(e[3] - e[2], f[3] - f[2]) / min(e[3] - e[2], f[3] - f[2])
+        if t_ov > 0 and x_ov > 0:
+            nested = (e[0] <= f[0] and f[1] <= e[1] and e[2] <= f[2] and f[3] <= e[3]) or \
+                     (f[0] <= e[0] and e[1] <= f[1] and f[2] <= e[2] and e[3] <= f[3])
+            return nested and ht <= 2 and hx <= 2
+        x_touch = x_ov == 0 or (self.closed and ((e[2] == 0 and f[3] == self.L) or (f[2] == 0 and e[3] == self.L)))
+        if t_ov > 0 and x_touch:
+            return ht <= 4
+        if x_ov > 0 and t_ov == 0:
+            return hx <= 4
+        return True
+
     def space_rel(self, e, f):
         a, b, c, d = e[2], e[3], f[2], f[3]
         same = self.piece(e) == self.piece(f)
